@@ -2,9 +2,11 @@
 // operation has the semantics of its std counterpart.
 pub mod async_std {
     pub mod fs {
-        pub use crate::shims::std::fs::{File, read, copy, remove_file};
+        pub use crate::shims::std::fs::{File, read, copy, remove_file, create_dir_all, OpenOptions, DirBuilder};
     }
-    pub mod io { }
+    pub mod io {
+        pub use crate::shims::std::io::BufReader;
+    }
     pub mod task {
         use vstd::prelude::*;
         #[verifier::external_body]
